@@ -220,6 +220,18 @@ def encode_and_check(ctx, tree, rt_before, bits, rooted, opts, tag):
                   lambda: "%s rooted=%r node over %s: split %s want %s (tree mask %s)" % (
                       tag, rooted, sorted(cl[i]), bin(b.split_bitmask), bin(want_split), bin(full_expected)))
         masks.append(b.split_bitmask)
+        # the public decoders of the stored masks name the same taxa / the same integers
+        ns_ = tree.taxon_namespace
+        dec = ctx.call("C01.leafset_taxa", b.leafset_taxa, ns_)
+        ctx.check(len(dec) == len(cl[i]) and set(t.label for t in dec) == set(cl[i]), "leafset_taxa_decodes_to_leaves_below", "C01.leafset_taxa",
+                  lambda: "%s node over %s: decoded %s (leafset %s)" % (tag, sorted(cl[i]), sorted(t.label for t in dec), bin(b.leafset_bitmask)))
+        dec2 = ctx.call("C01.bitmask_taxa_list", ns_.bitmask_taxa_list, b.leafset_bitmask)
+        ctx.check(len(dec2) == len(cl[i]) and set(t.label for t in dec2) == set(cl[i]), "namespace_decodes_leafset_bitmask", "C01.bitmask_taxa_list",
+                  lambda: "%s node over %s: decoded %s" % (tag, sorted(cl[i]), sorted(t.label for t in dec2)))
+        ctx.check(int(b) == b.split_bitmask == b.split_as_int() and b.leafset_as_int() == b.leafset_bitmask
+                  and int(b.leafset_as_bitstring(), 2) == b.leafset_bitmask and int(b.split_as_bitstring(), 2) == b.split_bitmask,
+                  "integer_and_bitstring_views", "C01.views",
+                  lambda: "%s int=%r split=%r leafset_bits=%r split_bits=%r" % (tag, int(b), b.split_bitmask, b.leafset_as_bitstring(), b.split_as_bitstring()))
     if ss:
         # documented: the list is not stored; the edges still carry fully compiled bipartitions
         ctx.check(enc is None and tree.bipartition_encoding is None, "suppress_storage_stores_no_list", "C01.suppress_storage", tag)
